@@ -581,6 +581,10 @@ func (push *Push) runTask(input *pushNotify) {
 
 		subscribe := in.subscribe
 		lastProcessedseq := push.getLastPushSeq(subscribe)
+		if lastProcessedseq < 0 {
+			// 尚未有推送被确认: 从上次选定的起始位置继续
+			lastProcessedseq = push.getStartPushSeq(subscribe.Name)
+		}
 		atomic.StoreInt32(&in.status, running)
 
 		runChan := make(chan struct{}, 10)
@@ -623,8 +627,9 @@ func (push *Push) runTask(input *pushNotify) {
 				}
 				if lastProcessedseq <= 0 { //如果不配置startSeq 则默认从最新的seq开始
 					lastProcessedseq = lastesBlockSeq
-					// 持久化起始位置, 否则在首次推送成功前被停用再激活(或重启)时会重新跳到最新的seq, 中间的seq丢失
-					_ = push.setLastPushSeq(subscribe.Name, lastProcessedseq)
+					// 持久化起始位置(单独的key, lastPushSeq只在订阅方确认后才更新), 否则在首次推送成功前
+					// 被停用再激活(或重启)时会重新跳到最新的seq, 中间的seq丢失
+					_ = push.setStartPushSeq(subscribe.Name, lastProcessedseq)
 					continue
 				}
 				chainlog.Debug("another new block", "subscribe name", subscribe.Name, "Type", PushType(subscribe.Type).String(),
@@ -1029,6 +1034,27 @@ func (push *Push) getLastPushSeq(subscribe *types.PushSubscribeReq) int64 {
 		"Contract:", subscribe.Contract, "num", n)
 
 	return n
+}
+
+func calcStartPushSeqNumKey(name string) []byte {
+	return []byte("startSeqNumPrefix:" + name)
+}
+
+// getStartPushSeq 订阅未指定起始seq时选定的起始位置, 不存在返回-1
+func (push *Push) getStartPushSeq(name string) int64 {
+	seqbytes, err := push.store.GetKey(calcStartPushSeqNumKey(name))
+	if seqbytes == nil || err != nil {
+		return -1
+	}
+	n, err := decodeHeight(seqbytes)
+	if err != nil {
+		return -1
+	}
+	return n
+}
+
+func (push *Push) setStartPushSeq(name string, num int64) error {
+	return push.store.SetSync(calcStartPushSeqNumKey(name), types.Encode(&types.Int64{Data: num}))
 }
 
 func (push *Push) setLastPushSeq(name string, num int64) error {
